@@ -40,7 +40,7 @@ def Closed (T : Tables) (mode : Mode) (top : Bool) (F : Flight) : Bool :=
     (born T mode top st.2 st.1).all (fun s => (F.get st).contains s.code) &&
     (children st.1).all (fun c =>
       (F.get (c, effOf T st.2 c)).all (fun k =>
-        (F.get st).contains (stepRegion T mode top (effOf T st.2 c) c (Sig.ofCode k)).code)))
+        (F.get st).contains (stepChild T mode top st.2 c (Sig.ofCode k)).code)))
 
 /-- acceptable at the method boundary: conforming, or carrying the tag of a catalogued hole -/
 def okSig (T : Tables) (top : Bool) (s : Sig) : Bool :=
@@ -65,7 +65,7 @@ theorem closed_born {T : Tables} {mode : Mode} {top : Bool} {F : Flight} (h : Cl
 
 theorem closed_step {T : Tables} {mode : Mode} {top : Bool} {F : Flight} (h : Closed T mode top F = true)
     (r c : Region) (eff : Bool) (hc : c ∈ children r) (s : Sig) (hs : F.has (c, effOf T eff c) s) :
-    F.has (r, eff) (stepRegion T mode top (effOf T eff c) c s) := by
+    F.has (r, eff) (stepChild T mode top eff c s) := by
   have h1 := List.all_eq_true.mp h (r, eff) (St.mem_all _)
   simp only [Bool.and_eq_true] at h1
   have h2 := List.all_eq_true.mp h1.2 c hc
